@@ -148,6 +148,9 @@ def cmd_check(sid, props):
             print(sid, p, "exit", r.returncode, obligations[:6], und[:2])
     finally:
         shutil.rmtree(d, ignore_errors=True)
+    # the verdict of the very first run against this seed is kept (what the checks caught before anything was changed for it)
+    if "first_pass" not in m:
+        m["first_pass"] = {p: {"exit": v.get("exit"), "obligations": v.get("obligations", [])[:3]} for p, v in out.items()}
     m["detected"] = any(v.get("exit") == 1 for v in out.values())
     save_meta(sid, m)
     return 0
